@@ -60,12 +60,14 @@ def register(S):
                abstract_calls=dict(LOG, closing="closing_noop"), effects={"normal": (0, 9), "raise": (0, 9)},
                ensures={"departed_client_is_forgotten": ("not haskey(self.clients, sock) and unchanged_except(self.clients, sock)", P17 + ["C16"]),
                         "served_at_most_once": ("n_callees('_serve_client') <= 1", P17 + ["C16"]),
+                        # a client is served only after the authenticator - when there is one - accepted exactly this socket
+                        "served_only_when_authenticated": ("implies(n_callees('_serve_client') == 1 and truthy(self.authenticator), called_and_returned(self.authenticator, cons(sock, nil())))", P17 + ["C16"]),
                         "shutdown_attempted": ("shutdown_attempted_on(sock)", P17)},
                # (a KeyboardInterrupt / SystemExit raised BY the shutdown attempt itself escapes before the socket is forgotten:
                # only Exceptions are swallowed there)
                raises={"BaseException": {"props": P17 + ["C16"], "modifies": ["self.clients"], "state": [
                    "implies(exc_is(exc, 'Exception'), not haskey(self.clients, sock))", "unchanged_except(self.clients, sock)",
-                   "n_callees('_serve_client') <= 1", "shutdown_attempted_on(sock)"]}},
+                   "n_callees('_serve_client') <= 1", "shutdown_attempted_on(sock)", "implies(n_callees('_serve_client') == 1 and truthy(self.authenticator), called_and_returned(self.authenticator, cons(sock, nil())))"]}},
                modifies=["self.clients"])
     # ---- a one-shot server serves one client and then shuts itself down, whatever happened -------------------------------------
     S.contract(F + "OneShotServer._accept_method", params={"self": "obj:OneShotServer", "sock": "val"},
